@@ -85,7 +85,7 @@ Inv_C08 == AtEnd => AllTrue(C08_L(cfg, opts, lg))
 Inv_C10 == AllTrue(C10_S(cfg, opts, pc, st)) /\ (AtEnd => AllTrue(C10_L(cfg, opts, lg)))
 Act_C10 == AllTrue(C10_A(cfg, opts, pc', Prev, st', b'))
 Inv_C12 == AllTrue(C12_S(cfg, opts, pc, st))
-Inv_C13 == AllTrue(C13_S(cfg, opts, pc, st)) /\ ~st.crash
+Inv_C13 == AllTrue(C13_S(cfg, opts, pc, st)) /\ ~st.crash /\ (AtEnd => AllTrue(C13_L(cfg, opts, lg)))
 Act_C13 == AllTrue(C13_A(cfg, opts, pc', Prev, st', b'))
 Inv_C14 == AllTrue(C14_S(cfg, opts, pc, st)) /\ (AtEnd => AllTrue(C14_L(cfg, opts, lg)))
 Act_C14 == AllTrue(C14_A(cfg, opts, pc', Prev, st', b'))
